@@ -67,6 +67,28 @@ func OrdStepIn(p *load.Program) *report.RuleResult {
 						}
 					}
 				}
+				// the same established earlier on the way here, whatever was stored to the state since
+				// (the test is what matters, the order of the bookkeeping after it is free)
+				if okB && !stateOK {
+					pb := in.Block()
+					for d := pb.Idom(); d != nil && !stateOK; d = d.Idom() {
+						bo, ok := blockIfCond(d).(*ssa.BinOp)
+						if !ok || (bo.Op != token.EQL && bo.Op != token.NEQ) {
+							continue
+						}
+						k, isK := ssau.ConstInt(bo.Y)
+						if !isK || k != before || !strings.HasSuffix(ssau.Path(bo.X), ".state") {
+							continue
+						}
+						si := 0
+						if bo.Op == token.NEQ {
+							si = 1
+						}
+						if s := d.Succs[si]; s == pb || s.Dominates(pb) {
+							stateOK = true
+						}
+					}
+				}
 				// (b) value != nil and valueType is a container type
 				nonNull := false
 				for f := range fs {
@@ -557,7 +579,20 @@ func OrdEndClear(p *load.Program) *report.RuleResult {
 	r := newResult("ORD-ENDCLEAR", "in each Writer implementation the function that closes a container (end) reaches (*writer).clear on every path to an exit that does not return a definitely non-nil error: a field name or annotation set just before End* does not leak to a later value", 2)
 	n := 0
 	for _, T := range implementers(p, p.Ion, "Writer") {
-		fn := methodByName(p, T.Obj().Name(), "end")
+		// the closer by what it does: the method of T that pops the context stack
+		var fn *ssa.Function
+		for _, f := range sortedFuncs(p) {
+			if recvTypeName(f) != T.Obj().Name() || p.InTest(f) || fn != nil {
+				continue
+			}
+			for _, b := range f.Blocks {
+				for _, in := range b.Instrs {
+					if calleeIs(in, "ctxstack", "pop") {
+						fn = f
+					}
+				}
+			}
+		}
 		if fn == nil {
 			continue
 		}
